@@ -4,6 +4,10 @@ import JSight.ValidateRProofs
 import JSight.ValidateAProofs
 import JSight.ValidateKProofs
 import JSight.AllOfProofs
+import JSight.AllOfKSem
+import JSight.AllOfKTrans
+import JSight.AllOfKFull
+import JSight.OrRuleSetProofs
 import JSight.Dfs
 import JSight.PinnedTree
 /-!
@@ -71,5 +75,294 @@ theorem C03_allOf_expand {L : Type} [DecidableEq L] (env : AO.PEnv L) (fuel : Na
 `[@A | @B, "s", 1]`, `@A = 1.5`, `@B = 2.5` accepts `[1, 1]` (fixed by F-11; kept as regression witness) -/
 theorem C03_pinned_tree_false : VN.validateTP VN.okK VN.wS VN.wD = true ∧ VN.shape VN.okK VN.wS VN.wD = false :=
   VN.C03_full_false
+
+/-! ## allOf as coded, and `or` rule-sets (extension)
+
+Models: `AOK.compileAll` (`compiler_all_of.go` transliterated: root first, then the types in sorted name order;
+`extend` before the children; per base: `processType` with its in-progress set, object test, additionalProperties
+merge by `IsEqual`, children appended with their (key, isShortcut) keys, required keys appended) producing `AOK.CS`
+objects with explicit children / RequiredKeys / additionalProperties, read by the validator through `AOK.toVK`;
+`ORS.loadAll` (the `or` value loaders + `AddUnnamedType` + `AddUnnamedTypes`). Driver words `semao`, `semor`; ties
+`sem-allof-full`, `sem-or-rs`. -/
+
+section AllOfK
+open AOK
+variable {L D : Type} [DecidableEq L]
+
+/-- **C03_allOf_expand for the model that follows the code.** An object with a non-empty allOf list expands iff every
+name resolves (`pt` = `processType` under the current in-progress set) to an object, the own children expand, no
+(key, isShortcut) pair occurs twice among own and inherited children, and the additionalProperties constraints that are
+present agree in the sense of the code's `IsEqual`; the result then has the own children followed by the children of the
+bases in list order, the own required keys followed by the bases', and the first additionalProperties constraint
+present (the object's own first). -/
+theorem C03_allOf_expand_coded (pt : String → Except Err (CS L)) (ents : List (String × Bool × Bool × PS L))
+    (add : Option (AP L)) (names : List String) (c : CS L) :
+    compileWith pt (.obj ents add (some names)) = .ok c ↔
+      names ≠ [] ∧ ∃ bases own, Resolves pt names bases ∧ (∀ b ∈ bases, isObj b = true) ∧
+        compileEnts pt ents = .ok own ∧
+        Fresh (ents.map keyOf) (bases.flatMap keysOf) ∧ Compatible (add :: bases.map addOf) ∧
+        c = .obj (own ++ bases.flatMap entsOf) (reqOf ents ++ bases.flatMap reqsOf) (firstAdd (add :: bases.map addOf)) :=
+  AOK.compileWith_obj_ok_iff pt ents add names c
+
+/-- **C03_allOf_semantics** (general form, key shortcuts included): the validator on the expanded object is the
+validator on the object that declares the own entries followed by the entries of the expanded — hence transitively
+complete — bases, in allOf order, under the merged additionalProperties; by `C03_key_shortcuts` it accepts exactly
+what that object's specification `VK.shape` admits. -/
+theorem C03_allOf_semantics (envV : VK.Env L) (litOK : L → D → Bool) (keyOK : String → String → Bool)
+    (pt : String → Except Err (CS L)) (ents : List (String × Bool × Bool × PS L)) (add : Option (AP L))
+    (names : List String) (c : CS L) (bases : List (CS L)) (own : List (String × Bool × Bool × CS L))
+    (hc : compileWith pt (.obj ents add (some names)) = .ok c)
+    (hr : Resolves pt names bases) (ho : compileEnts pt ents = .ok own) (d : VN.J D) :
+    VK.validateT envV litOK keyOK (toVK c) d =
+      VK.shape envV litOK keyOK
+        (.obj (plainOf own ++ bases.flatMap (fun b => plainOf (entsOf b)))
+              (shortsOf own ++ bases.flatMap (fun b => shortsOf (entsOf b)))
+              (modeOf (firstAdd (add :: bases.map addOf)))) d :=
+  AOK.allOf_semantics envV litOK keyOK pt ents add names c bases own hc hr ho d
+
+/-- **C03_allOf_semantics, conjunction form** (no key shortcut among own and inherited entries — with shortcuts the
+one-slot greedy matching makes "meets the requirements of each part" meaningless): the expanded object accepts an
+object document iff its members meet the object's own property requirements AND the property requirements of every
+base (each base is itself expanded: `C03_allOf_transitive`), and the merged additionalProperties accepts every member
+that neither the object nor a base names. -/
+theorem C03_allOf_semantics_conj (envV : VK.Env L) (litOK : L → D → Bool) (keyOK : String → String → Bool)
+    (pt : String → Except Err (CS L)) (ents : List (String × Bool × Bool × PS L)) (add : Option (AP L))
+    (names : List String) (c : CS L) (bases : List (CS L)) (own : List (String × Bool × Bool × CS L))
+    (hc : compileWith pt (.obj ents add (some names)) = .ok c)
+    (hr : Resolves pt names bases) (ho : compileEnts pt ents = .ok own)
+    (hplain : ∀ e ∈ entsOf c, e.2.1 = false) (ms : List (String × VN.J D)) :
+    VK.validateT envV litOK keyOK (toVK c) (.obj ms) = true ↔
+      Meets envV litOK keyOK (plainOf own) ms ∧
+      (∀ b ∈ bases, Meets envV litOK keyOK (plainOf (entsOf b)) ms) ∧
+      (∀ m ∈ ms, VK.lookup (plainOf own) m.1 = none → (∀ b ∈ bases, VK.lookup (plainOf (entsOf b)) m.1 = none) →
+        AddAccepts envV litOK keyOK (modeOf (firstAdd (add :: bases.map addOf))) m.2 = true) :=
+  AOK.allOf_semantics_conj envV litOK keyOK pt ents add names c bases own hc hr ho hplain ms
+
+/-- **transitive inheritance**: the children of an expanded type are its own children and the own children of every
+type it inherits from through any number of allOf steps (`Anc`). -/
+theorem C03_allOf_transitive (env : PEnv L) (f : Nat) (P : List String) (n : String) (c : CS L)
+    (h : processType env f P n = .ok c) (e : String × Bool × Bool × CS L) :
+    e ∈ entsOf c ↔ e ∈ ownPart env n c ∨ ∃ m cm, Anc env n m ∧ Expands env m cm ∧ e ∈ ownPart env m cm :=
+  AOK.allOf_transitive env f P n c h e
+
+/-- **C03_allOf_semantics, as the property reads** (plain, pairwise distinct keys — distinctness between own and
+inherited keys and among the inherited ones is what a successful expansion guarantees, within the own ones the loader):
+a type `n` that expands to the object `c` accepts an object document iff its members meet the requirement of every own
+property of `n` AND of every own property of every type `n` inherits from through any number of allOf steps, and
+additionalProperties (the first constraint present) accepts every member whose key none of these properties names. -/
+theorem C03_allOf_semantics_transitive (env : PEnv L) (envV : VK.Env L) (litOK : L → D → Bool) (keyOK : String → String → Bool)
+    (f : Nat) (P : List String) (n : String) (c : CS L) (h : processType env f P n = .ok c)
+    (hplain : ∀ e ∈ entsOf c, e.2.1 = false) (hnd : ((entsOf c).map keyOf).Nodup) (hobj : isObj c = true)
+    (ms : List (String × VN.J D)) :
+    VK.validateT envV litOK keyOK (toVK c) (.obj ms) = true ↔
+      (∀ e ∈ ownPart env n c, EntryMet envV litOK keyOK e ms) ∧
+      (∀ m cm, Anc env n m → Expands env m cm → ∀ e ∈ ownPart env m cm, EntryMet envV litOK keyOK e ms) ∧
+      (∀ m ∈ ms, (∀ e ∈ entsOf c, e.1 ≠ m.1) → AddAccepts envV litOK keyOK (modeOf (addOf c)) m.2 = true) :=
+  AOK.allOf_semantics_transitive env envV litOK keyOK f P n c h hplain hnd hobj ms
+
+/-- **required-key bookkeeping**: after `CompileAllOf` the RequiredKeys list of every object of the root and of every
+type is exactly the list of the keys of its non-optional children, own then inherited (the optional flags are
+inherited with the children). -/
+theorem C03_allOf_required_keys (env : PEnv L) (root : PS L) (env' : List (String × CS L)) (root' : CS L)
+    (h : compileAll env root = .ok (env', root')) : ReqOK root' ∧ ∀ p ∈ env', ReqOK p.2 :=
+  AOK.reqOK_compileAll env root env' root' h
+
+/-- **C03_allOf_errors**, one object: the expansion fails iff the allOf list is empty, or a base does not expand
+(`C03_allOf_errors_type`: cycle, unknown type, or a failure inside it), or a base is not an object, or — all bases
+resolving — a key collides or two additionalProperties constraints conflict, or an own child fails. Independent of the
+order in which the code meets the defects (which only selects the reported code; compared by `sem-allof-full`). -/
+theorem C03_allOf_errors (pt : String → Except Err (CS L)) (ents : List (String × Bool × Bool × PS L))
+    (add : Option (AP L)) (names : List String) :
+    (∃ e, compileWith pt (.obj ents add (some names)) = .error e) ↔
+        names = []
+      ∨ (∃ n ∈ names, ∃ e, pt n = .error e)
+      ∨ (∃ n ∈ names, ∃ b, pt n = .ok b ∧ isObj b = false)
+      ∨ (∃ bases, Resolves pt names bases ∧
+          (¬ Fresh (ents.map keyOf) (bases.flatMap keysOf) ∨ ¬ Compatible (add :: bases.map addOf)))
+      ∨ (∃ e, compileEnts pt ents = .error e) :=
+  AOK.compileWith_obj_fails_iff pt ents add names
+
+/-- a type does not expand iff it is in progress (a cycle), unknown, or its body does not expand -/
+theorem C03_allOf_errors_type (env : PEnv L) (f : Nat) (P : List String) (n : String) :
+    (∃ e, processType env (f + 1) P n = .error e) ↔
+      n ∈ P ∨ lookupP env n = none ∨
+      ∃ t, lookupP env n = some t ∧ ∃ e, compileWith (fun m => processType env f (n :: P) m) t = .error e :=
+  AOK.processType_fails_iff env f P n
+
+/-- the in-progress set finds exactly the cycles: every table in which a type inherits from itself (through any
+number of steps, from any depth of its body, used by the root or not) is refused … -/
+theorem C03_allOf_cycle_refused (env : PEnv L) (root : PS L) (a : String) (hc : DepPlus env a a) :
+    ∃ e, compileAll env root = .error e := AOK.compileAll_cycle_fails env root a hc
+
+/-- … and the recursion error (703) is only reported when some type inherits from itself -/
+theorem C03_allOf_recursion_error_cycle (env : PEnv L) (root : PS L) (h : compileAll env root = .error .recursion) :
+    ∃ a, DepPlus env a a := AOK.compileAll_recursion_cycle env root h
+
+/-- the fuel of the model never runs out: the model's recursion terminates on every table -/
+theorem C03_allOf_total (env : PEnv L) (root : PS L) : compileAll env root ≠ .error .fuel :=
+  AOK.compileAll_never_out_of_fuel env root
+
+/-- the compiled type does not depend on the context in which it is expanded (re-expansion in the model = the memo
+`compiledTypes` of the code) -/
+theorem C03_allOf_context_free (env : PEnv L) (f f' : Nat) (P P' : List String) (n : String) (c c' : CS L)
+    (h : processType env f P n = .ok c) (h' : processType env f' P' n = .ok c') : c = c' :=
+  AOK.processType_proc_irrelevant env f f' P P' n c c' h h'
+
+end AllOfK
+
+/-! ### non-vacuity: a three-level chain `@C allOf @B allOf @A` with an optional key and additionalProperties at both
+ends, and every error case -/
+section AllOfKExamples
+open AOK
+
+private def exEnv : PEnv Nat :=
+  [("A", .obj [("a", false, true, .lit 1), ("o", false, false, .lit 2)] (some .any) none),
+   ("B", .obj [("b", false, true, .lit 3)] none (some ["A"])),
+   ("C", .obj [("c", false, true, .lit 4)] (some .no) (some ["B"]))]
+private def exLit (l : Nat) (d : Nat) : Bool := l == d
+private def exKey (_ _ : String) : Bool := false
+private def exPt : String → Except Err (CS Nat) := fun m => processType exEnv 4 [] m
+private def exB : CS Nat :=
+  .obj [("b", false, true, .lit 3), ("a", false, true, .lit 1), ("o", false, false, .lit 2)] ["b", "a"] (some .any)
+private def exC : CS Nat :=
+  .obj [("c", false, true, .lit 4), ("b", false, true, .lit 3), ("a", false, true, .lit 1), ("o", false, false, .lit 2)]
+    ["c", "b", "a"] (some .no)
+
+/-- `@B` expands to its own child, then `@A`'s (the optional flag of `o` kept); it copies `@A`'s "any" -/
+example : exPt "B" = .ok exB := rfl
+/-- `@C`: own, then everything `@B` has (two levels); explicit `false` and the inherited "any" are `IsEqual`, the
+object's own `false` stays; required keys of three levels -/
+example : compileWith exPt (.obj [("c", false, true, .lit 4)] (some .no) (some ["B"])) = .ok exC := rfl
+example : Resolves exPt ["B"] [exB] := .cons rfl .nil
+example : compileEnts exPt [("c", false, true, (.lit 4 : PS Nat))] = .ok [("c", false, true, .lit 4)] := rfl
+example : ∀ e ∈ entsOf exC, e.2.1 = false := by decide
+example : (compileAll exEnv (.ref ["C"] none)).toOption.map (·.2) = some (.ref ["C"] none) := rfl
+/-- the expanded `@C` wants `a`, `b`, `c`, allows `o`, forbids anything else; `@B` allows anything else -/
+example : VK.validateT (L := Nat) (D := Nat) [] exLit exKey (toVK exC) (.obj [("a", .lit 1), ("c", .lit 4), ("b", .lit 3)]) = true := by
+  decide +kernel
+example : VK.validateT (L := Nat) (D := Nat) [] exLit exKey (toVK exC) (.obj [("a", .lit 1), ("c", .lit 4)]) = false := by
+  decide +kernel
+example : VK.validateT (L := Nat) (D := Nat) [] exLit exKey (toVK exC) (.obj [("a", .lit 1), ("c", .lit 4), ("b", .lit 3), ("z", .lit 3)]) = false := by
+  decide +kernel
+example : VK.validateT (L := Nat) (D := Nat) [] exLit exKey (toVK exB) (.obj [("a", .lit 1), ("b", .lit 3), ("z", .lit 3)]) = true := by
+  decide +kernel
+example : processType exEnv 4 [] "C" = .ok exC := rfl
+example : ((entsOf exC).map keyOf).Nodup := by decide
+example : isObj exC = true := rfl
+example : ownPart exEnv "C" exC = [("c", false, true, .lit 4)] := rfl
+example : Anc exEnv "C" "A" := .step (k := "B") (by decide) (.base (by decide))
+/-- every way to fail, with the error the code reports -/
+example : compileAll (L := Nat) [("A", .obj [] none (some ["B"])), ("B", .obj [("k", false, true, .obj [] none (some ["A"]))] none none)] .any
+    = .error .recursion := rfl
+example : DepPlus (L := Nat) [("A", .obj [] none (some ["B"])), ("B", .obj [("k", false, true, .obj [] none (some ["A"]))] none none)] "A" "A" :=
+  .step (b := "B") ⟨.obj [] none (some ["B"]), rfl, by decide⟩
+    (.one ⟨.obj [("k", false, true, .obj [] none (some ["A"]))] none none, rfl, by decide⟩)
+example : compileAll (L := Nat) [("A", .obj [] none (some ["Z"]))] .any = .error .unknownType := rfl
+example : compileAll (L := Nat) [("A", .lit 1)] (.obj [] none (some ["A"])) = .error .notObject := rfl
+example : compileAll (L := Nat) [("A", .obj [("k", false, true, .lit 1)] none none)]
+    (.obj [("k", false, false, .lit 2)] none (some ["A"])) = .error .duplicateKey := rfl
+example : compileAll (L := Nat) [("A", .obj [] (some (.lit 1)) none)] (.obj [] (some .any) (some ["A"])) = .error .conflictAdd := rfl
+example : compileAll (L := Nat) [] (.obj [] none (some [])) = .error .emptyAllOf := rfl
+example : compileAll (L := Nat) [("A", .obj [] none none)] (.bad ["A"]) = .error .unexpectedConstraint := rfl
+/-- a plain key `"@k"` and the key shortcut `@k` are different keys: no collision -/
+example : (compileAll (L := Nat) [("A", .obj [("k", true, true, .lit 1)] none none)]
+    (.obj [("@k", false, true, .lit 2)] none (some ["A"]))).toOption.map (·.2) =
+    some (.obj [("@k", false, true, .lit 2), ("k", true, true, .lit 1)] ["@k", "@k"] none) := rfl
+
+end AllOfKExamples
+
+/-! ## `or` rule-sets -/
+section OrRuleSets
+open ORS
+variable {L R D : Type}
+
+/-- a reference position accepts the union over its names, plus the literal alternative of `nullable: true` -/
+theorem C03_ref_union (env : VK.Env L) (litOK : L → D → Bool) (keyOK : String → String → Bool)
+    (names : List String) (nul : Option L) (d : VN.J D) :
+    VK.shape env litOK keyOK (.ref names nul) d =
+      (names.any (fun n => VK.shape env litOK keyOK (.ref [n] none) d) || nulAccepts litOK nul d) :=
+  ORS.shape_ref_union env litOK keyOK names nul d
+
+/-- a type name accepts what its type accepts -/
+theorem C03_ref_single (env : VK.Env L) (litOK : L → D → Bool) (keyOK : String → String → Bool)
+    (a : String) (t : VK.S L) (hl : VK.lookupT env a = some t) (d : VN.J D) :
+    VK.shape env litOK keyOK (.ref [a] none) d = VK.shape env litOK keyOK t d :=
+  ORS.shape_ref_single env litOK keyOK a t hl d
+
+/-- **C03_or_ruleset_union, any position**: the names the loader appends for the members of an `or` list accept,
+together, exactly what the members accept as written (`memberAccepts`: a named type by either spelling; a type string
+or a rule-set = its compiled root), in every table in which the types created so far are found under their names -/
+theorem C03_or_members_union (env : VK.Env L) (litOK : L → D → Bool) (keyOK : String → String → Bool)
+    (fresh : Nat → String) (mk : R → VK.S L) (d : VN.J D) (ms : List (Member R)) (st : St L)
+    (hl : ∀ p ∈ (loadMembers fresh mk ms st).2.anon, VK.lookupT env p.1 = some p.2) :
+    (loadMembers fresh mk ms st).1.any (fun n => VK.shape env litOK keyOK (.ref [n] none) d) =
+      ms.any (memberAccepts env litOK keyOK mk d) :=
+  ORS.loadMembers_union env litOK keyOK fresh mk d ms st hl
+
+/-- in the table the loader builds every created type is found under its name (unique names that are never user
+type names: what `#%p` of a fresh object guarantees) -/
+theorem C03_or_created_types_found (fresh : Nat → String) (mk : R → VK.S L) (env : List (String × OS L R)) (root : OS L R)
+    (hinj : ∀ i j, fresh i = fresh j → i = j) (hdisj : ∀ k, fresh k ∉ env.map (·.1)) :
+    ∀ p ∈ (loadNode fresh mk root (loadEnv fresh mk env ⟨0, []⟩).2).2.anon,
+      VK.lookupT (loadAll fresh mk env root).1 p.1 = some p.2 :=
+  ORS.loadAll_lookup_anon fresh mk env root hinj hdisj
+
+/-- **C03_or_ruleset_union** (closed statement for a root `or` node over any table of added types, themselves with
+`or` nodes anywhere): the validator accepts exactly the union over the members as written — named type, `{type: "@T"}`,
+type string, rule-set — plus the literal alternative of `nullable: true` (null only: `nulAccepts` with the null
+literal) -/
+theorem C03_or_ruleset_union (fresh : Nat → String) (mk : R → VK.S L) (litOK : L → D → Bool) (keyOK : String → String → Bool)
+    (env : List (String × OS L R)) (members : List (Member R)) (nul : Option L)
+    (hinj : ∀ i j, fresh i = fresh j → i = j) (hdisj : ∀ k, fresh k ∉ env.map (·.1)) (d : VN.J D) :
+    VK.validateT (loadAll fresh mk env (.or members nul)).1 litOK keyOK (loadAll fresh mk env (.or members nul)).2 d =
+      (members.any (memberAccepts (loadAll fresh mk env (.or members nul)).1 litOK keyOK mk d) || nulAccepts litOK nul d) :=
+  ORS.or_ruleset_union fresh mk litOK keyOK env members nul hinj hdisj d
+
+/-! non-vacuity: `v // {or: [{type: "integer", min: 0}, "string", "@A", {type: "@B"}], nullable: true}` with literals as
+(kind, lower bound) pairs; `@A` itself carries an `or`, so the table holds three created types -/
+private inductive K | int | str | bool | null deriving DecidableEq
+private def oLit (l : K × Nat) (d : K × Nat) : Bool := (l.1 == d.1 && decide (l.2 ≤ d.2))
+private def oFresh (k : Nat) : String := String.ofList (List.replicate (k + 1) '#')
+private def oEnv : List (String × OS (K × Nat) (K × Nat)) :=
+  [("A", .or [.typeStr (.bool, 0), .ruleSet (.int, 100)] none), ("B", .lit (.bool, 5))]
+private def oMembers : List (Member (K × Nat)) := [.ruleSet (.int, 3), .typeStr (.str, 0), .named "A", .typeRef "B"]
+private def oMk (r : K × Nat) : VK.S (K × Nat) := .lit r
+
+example : (loadAll oFresh oMk oEnv (.or oMembers (some (.null, 0)))).2 = .ref ["###", "####", "A", "B"] (some (.null, 0)) := rfl
+example : (loadAll oFresh oMk oEnv (.or oMembers (some (.null, 0)))).1.map (·.1) = ["A", "B", "#", "##", "###", "####"] := rfl
+example : ∀ k, oFresh k ∉ oEnv.map (·.1) := by
+  intro k h
+  simp only [oEnv, List.map_cons, List.map_nil, List.mem_cons, List.not_mem_nil, or_false] at h
+  rcases h with h | h <;>
+  · have := congrArg (fun s => s.toList.head?) h
+    simp [oFresh, List.replicate] at this
+example : ∀ i j, oFresh i = oFresh j → i = j := by
+  intro i j h
+  have := congrArg (fun s => s.toList.length) h
+  simp [oFresh] at this
+  exact this
+/-- accepted through the rule-set, the type string, the created types of `@A`, `{type: "@B"}`, nullable; rejected
+outside the union -/
+example : VK.validateT (loadAll oFresh oMk oEnv (.or oMembers (some (.null, 0)))).1 oLit (fun _ _ => false)
+    (loadAll oFresh oMk oEnv (.or oMembers (some (.null, 0)))).2 (.lit (.int, 7)) = true := by decide +kernel
+example : VK.validateT (loadAll oFresh oMk oEnv (.or oMembers (some (.null, 0)))).1 oLit (fun _ _ => false)
+    (loadAll oFresh oMk oEnv (.or oMembers (some (.null, 0)))).2 (.lit (.int, 2)) = false := by decide +kernel
+example : VK.validateT (loadAll oFresh oMk oEnv (.or oMembers (some (.null, 0)))).1 oLit (fun _ _ => false)
+    (loadAll oFresh oMk oEnv (.or oMembers (some (.null, 0)))).2 (.lit (.bool, 1)) = true := by decide +kernel
+example : VK.validateT (loadAll oFresh oMk oEnv (.or oMembers (some (.null, 0)))).1 oLit (fun _ _ => false)
+    (loadAll oFresh oMk oEnv (.or oMembers (some (.null, 0)))).2 (.lit (.null, 0)) = true := by decide +kernel
+example : VK.validateT (loadAll oFresh oMk oEnv (.or oMembers none)).1 oLit (fun _ _ => false)
+    (loadAll oFresh oMk oEnv (.or oMembers none)).2 (.lit (.null, 0)) = false := by decide +kernel
+
+/-- regression witness of fix F-33 (a94aab7): before it the extra alternative of a nullable node with a types list
+was the literal validator of the node ITSELF — the kind of its example, not null only — so `5 // {or: [{type:
+"integer", min: 3}, "string"], nullable: true}` accepted `1`, which is in no member and not null. The theorem above
+holds for any literal alternative; the property needs the null-only one. -/
+example : VK.validateT (loadAll oFresh oMk [] (.or [.ruleSet (.int, 3), .typeStr (.str, 0)] (some (.int, 0)))).1 oLit (fun _ _ => false)
+    (loadAll oFresh oMk [] (.or [.ruleSet (.int, 3), .typeStr (.str, 0)] (some (.int, 0)))).2 (.lit (.int, 1)) = true := by decide +kernel
+example : VK.validateT (loadAll oFresh oMk [] (.or [.ruleSet (.int, 3), .typeStr (.str, 0)] (some (.null, 0)))).1 oLit (fun _ _ => false)
+    (loadAll oFresh oMk [] (.or [.ruleSet (.int, 3), .typeStr (.str, 0)] (some (.null, 0)))).2 (.lit (.int, 1)) = false := by decide +kernel
+
+end OrRuleSets
 
 end Props.C03
